@@ -35,7 +35,7 @@ def cases(tier, rng):
                         yield {'kind': 'mux', 'term': [['time_split', cfg, [['count', True]]]], 'items': items}
                     yield {'kind': 'mux', 'term': [['group_by', ['mod', 2], [['time_split', cfg, [['last']]]]]], 'items': [3, 4, 5, 7, 8, 11, 12]}
                     yield {'kind': 'mux', 'term': [['roll', 3, 3, [['time_split', cfg, [['to_list']]]]]], 'items': [3, 4, 5, 7, 8, 11, 12]}
-    n = {'quick': 500, 'thorough': 8000, 'search': 600}[tier]
+    n = {'quick': 1500, 'thorough': 8000, 'search': 600}[tier]
     for i in range(n):
         nest = 2 if tier != 'thorough' else rng.choice([2, 2, 3])
         g = muxgen.Gen(rng, {'nest': nest, 'max_len': 3})
